@@ -15,13 +15,13 @@ CLAIMED = {
              text="TLC evaluates `status = (forall E in Fam : a in E)` on every skeptical answer of the real solvers; the oracle exploration supplies the model orders under which a missing or over-strong blocking clause shows.",
              ref="5 (C02/C03)"),
  "C04": dict(tech="TLC-judged traces of the real *_with_certificate entry points (Dung.tla oracle)",
-             text="TLC evaluates certificate presence (iff promised), membership in Fam(af, sem) (CO for DC-PR), witness condition and label/id well-formedness on every certificate, multi-component and sparse-id presentations included.",
+             text="TLC evaluates certificate presence (iff promised), membership in Fam(af, sem) (CO for DC-PR), witness condition and label/id well-formedness on every certificate returned by the API and on every `w` line printed by both binaries (instances with certificates of > 1000 members included); multi-component, sparse-id, padded (40-500 arguments) and grounded-reducible (20-300 arguments) frameworks.",
              ref="5 (C04)"),
  "C07": dict(tech="TLC-judged traces of list queries on all static solvers (disjunctive Cred/Skep of Dung.tla)",
              text="All lists of 1..2 (quick) / 1..3 (thorough) arguments with repetition on all frameworks <= 3 arguments, 4-argument classes, shaped multi-component and random frameworks, both entry points; TLC evaluates the disjunctive reference value.",
              ref="5 (C07)"),
  "C08": dict(tech="TLC-judged traces of the six dynamic solver types; logical framework carried by Store.tla inside TraceDynamic.tla",
-             text="Every update history leading to a distinct state of Store.tla (3 labels; exported by TLC) is executed on 13 solver configurations (6 types, 5 reservation factors, recompute wrapper over 4 semantics) with query rounds at random intermediate points, under CaDiCaL and under a seeded random SAT-model choice, plus random walks of 40-300 operations; TLC carries the logical framework with Store.tla's Step and judges every status and certificate against Dung.tla.",
+             text="Every update history leading to a distinct state of Store.tla (3 labels; exported by TLC) is executed on 13 solver configurations (6 types, 5 reservation factors, recompute wrapper over 4 semantics) with query rounds at random intermediate points, under CaDiCaL and under a seeded random SAT-model choice, plus every query-free batch of <= 5 effective updates from every logical state over 2 labels (MCBatch), the static checks' frameworks built through update histories (targets) and random walks of 40-300 operations; TLC carries the logical framework with Store.tla's Step and judges every status and certificate against Dung.tla.",
              ref="5 (C08), 3.6"),
  "C09": dict(tech="TLC-judged traces of the dynamic solvers with redundant/invalid updates; results and later answers judged against Store.tla + Dung.tla",
              text="Same histories as C08 with redundant (existing argument/attack) and invalid (unknown operand) operations inserted at random positions; TLC checks the Ok/Err result of each update against Store.tla's Step and every later answer against the framework without the rejected or redundant operation.",
@@ -39,7 +39,7 @@ CLAIMED = {
              text="(i) every DIMACS instance received by the external program during real queries is checked for nv >= max variable and exact clause count; (ii) TLC proves the drain-then-wait exchange terminates for all volumes around the pipe capacity and four child behaviours, and real calls with replies of 1 KiB..8 MiB, split v lines and early replies must return within a cap; (iii) all replies of <= 3 (4) lines over 13 line kinds are classified by the specification and read by the real parser.",
              ref="5 (C16), 3.5"),
  "C17": dict(tech="fault injection at every SAT-call position through the public solver factory + failing external processes; TLC-judged fault events",
-             text="For every query on all frameworks <= 3 arguments (and 4-argument classes, shaped, random) a fault-free run counts the k SAT calls, then k runs return Unknown at position 1..k; six failing process behaviours are run through ExternalSatSolver; TLC checks that an injected fault always aborts the query with neither status nor extension.",
+             text="For every query on all frameworks <= 3 arguments (and 4-argument classes, shaped, random) a fault-free run counts the k SAT calls, then k runs return Unknown at position 1..k; six failing process behaviours are run through ExternalSatSolver; TLC checks that an injected fault always aborts the query with neither status nor extension. Faults are also injected at the K-th call through a real process (fakesat failat:K) on list queries over several components, and at the command line (`crustabri solve --external-sat-solver`, small files and files above 1 MiB): non-zero exit status and no answer on stdout whenever the failing call was reached.",
              ref="5 (C17)"),
  "C18": dict(tech="SAT calls counted and decoded per component through the public factory/encoder wrappers under exhaustive oracle exploration; bound evaluated by TLC from Dung.tla",
              text="Every query (single arguments and lists) on all frameworks <= 3 arguments under every SAT-model schedule, plus 4-argument classes, shaped and random frameworks: per query and per component the number of SAT calls (summed over solver instances) must not exceed the bound TLC computes from the component's base family, and PR never examines a candidate twice; a call cap observes non-termination.",
@@ -60,7 +60,7 @@ CLAIMED = {
              text="Random update histories (tombstones, id holes) on AAFramework<String>; after random steps the framework is written in Aspartix format and read back, and TLC compares labels in order, attack set and line count with the abstract state it carried itself; extensions (incl. empty), statuses and 'no extension' through both response writers must read back exactly.",
              ref="5 (C14)"),
  "C19": dict(tech="EquivalencyComputer output judged by TLC: classes sound w.r.t. CO(af) of Dung.tla, mappings total and inverse",
-             text="All frameworks <= 3 arguments, 4-argument classes, shaped, random and grounded-mix frameworks (propagation-sensitive shapes) through the reducer; TLC computes CO(af) and checks that merged arguments belong to the same complete extensions, that classes partition the arguments and that the two mappings are inverse on classes.",
+             text="All frameworks <= 3 arguments, 4-argument classes, shaped, random and grounded-mix frameworks (propagation-sensitive shapes) through the reducer; TLC computes CO(af) and checks that merged arguments belong to the same complete extensions, that classes partition the arguments and that the two mappings are inverse on classes. The clause "grounded arguments together, defeated arguments together" is judged on every framework; frameworks of 20-500 arguments (64-200 unattacked arguments, small undecided part) are judged through the grounded reduct (MCDung ReductTheorem, TLAPS proofs/ReductLemma).",
              ref="5 (C19)"),
 }
 
